@@ -187,7 +187,9 @@ Fixpoint deser_loop (fuel : nat) (tags : bytes) (st : de_st) : outcome de_st :=
             else match take_val st with
                  | Some (w0, st1) =>
                    match take_val st1 with
-                   | Some (w1, st2) => deser_loop f tr (set_tape_off st2 (tape_set (tape_set (d_tape st2) off w0) (off + 1) w1) (off + 2))
+                   | Some (w1, st2) =>
+                     if negb (w0 / two56 =? TagFloat) then Err
+                     else deser_loop f tr (set_tape_off st2 (tape_set (tape_set (d_tape st2) off w0) (off + 1) w1) (off + 2))
                    | None => Err
                    end
                  | None => Err
